@@ -161,16 +161,6 @@ Proof.
   rewrite Ht'. simpl. apply Z.leb_le. lia.
 Qed.
 
-Lemma open_report_not_recopen : forall o d c,
-  open_report o = Some d -> forall r, o = RecOpen r -> k_cid (o_key r) <> c.
-Proof. intros o d c H r ->. discriminate. Qed.
-
-Lemma open_report_tracked : forall s o d, open_report o = Some d -> step s o (cid_of o) <> None.
-Proof.
-  intros s o [T m] H Hn. destruct (open_report_floor s o T m H) as [t' [Ht' _]].
-  unfold ts in Ht'. rewrite Hn in Ht'. discriminate.
-Qed.
-
 (** an open report with something left raises the floor to its own timestamp *)
 Lemma floor_raised : forall s o T m lo,
   open_report o = Some (T, m) ->
@@ -230,7 +220,21 @@ Lemma ord_track_model : forall i c st x e,
 Proof.
   intros i c [need hi] x e Hn Hh. simpl in Hn, Hh. unfold ord_track.
   destruct (e_ord (estep9 e x) i c) as [y|] eqn:Ey.
-  2:{ simpl. repeat split; reflexivity. }
+  2:{ simpl. repeat split; try reflexivity.
+      destruct (resets i c x) eqn:Er; [reflexivity|]. simpl.
+      destruct (open_deliveries (ord_inputs i c [x])) as [|d ds] eqn:Ed; [reflexivity|].
+      exfalso. revert Ey. rewrite single_projection.
+      destruct x as [m|bals insts|o|j t k]; try discriminate.
+      - simpl in Er. apply negb_false_iff in Er. apply open_reports_tracked.
+        + intros E0. rewrite E0 in Ed. discriminate.
+        + apply Forall_forall. intros o Ho. split; [eapply ord_inputs_cid; eauto|].
+          pose proof (open_only_spec _ Er) as Hall. rewrite Forall_forall in Hall. apply Hall. exact Ho.
+      - unfold ord_inputs, inst_inputs in *. simpl in *.
+        destruct (Z.eqb (inst_of o) i); simpl in *; [|discriminate].
+        destruct (Z.eqb_spec (cid_of o) c) as [Ec|Ec]; simpl in *; [|discriminate].
+        unfold open_deliveries in Ed. simpl in Ed.
+        destruct (open_report o) as [d0|] eqn:Eo; [|discriminate].
+        subst c. apply (open_report_tracked _ o d0 Eo). }
   assert (ht (Some y) = ts (e_ord (estep9 e x) i) c) as Hht.
   { rewrite <- Ey. apply ht_ts. }
   destruct (resets i c x) eqn:Er.
